@@ -39,7 +39,8 @@ CHECKS = [
         "Seeded search over simulated executions: generated pictures are saved by the real Image.cc onto a simulated disk (fopencookie) or produced as "
         "foreign P5/P6/P7/BMP variants by independent encoders, through FILE* and through filenames (fopen is routed to the simulated disk), after the image "
         "object went through copy/move histories; the simulator then decides what the disk durably holds (torn write / every or drawn prefix "
-        "lengths), read errors, chunked delivery and disk-full during save. Oracles: the generator's pixel array, independent PNG/BMP/PPM decoders (own CRC-32), "
+        "lengths), read errors, one interrupted read, chunked delivery, streams that cannot seek, a second file following in the same stream, a second thread saving and "
+        "loading while the first is inside a stream call, a global C++ locale that groups digits, errno on entry, and disk-full during save. Oracles: the generator's pixel array, independent PNG/BMP/PPM decoders (own CRC-32), "
         "'throws or decodes identically' under faults, ASan/UBSan, and an exact malloc/free balance of the code under test for leaks. Small files are torn at "
         "every prefix length (enumeration, reported as such in evidence); otherwise sampling, not proof.",
         "Trusted: vsim/vfs.cc cookie layer, glibc stdio, zlib inflate for the PNG check, the reference encoders/decoders in engines/sim_image.cc. "
@@ -50,17 +51,20 @@ CHECKS = [
         "run against real kernel pipes and a real forked child, but the child is a scripted helper that performs exactly one non-blocking step per simulator command, and the "
         "parent's poll/read/write/waitpid/kill/close/gettimeofday are link-time wrapped scheduling points. One seed decides how many child steps are released at every parent "
         "call, stalls, simulated sleeps and timeouts, EINTR, spurious EAGAIN and clamped transfers; blocking calls are emulated so 'no process can make a step' is a detected "
-        "DEADLOCK. Ten script families plus a passive grandchild holding the pipes, a caller without descriptor 0, repeated calls, and a Subprocess life-cycle scenario. "
+        "DEADLOCK. Twelve script families plus a passive grandchild holding the pipes, a chatty descendant played by the simulator, a child that stops itself (SIGSTOP/SIGCONT), a caller "
+        "without descriptor 0 or 1, a periodic signal, another thread reusing released descriptor numbers, a second unsimulated caller, repeated calls, and a Subprocess life-cycle scenario "
+        "with moves. "
         "Oracle: bytes and wait status recomputed from the script, payload delivery (count + hash seen by the child), check/timeout semantics with a simulated-time bound, "
         "reaping, livelock, and the open descriptor set before/after. Sampling, not proof.",
         "Trusted: the real kernel's pipe/wait/signal semantics (deterministic under lock-step; re-checked by the determinism gate), vsim/child.c, the wrappers in engines/sim_proc.cc. "
         "Assumes the embedding program ignores SIGPIPE. communicate() is not expected to drain stderr.",
         "DESIGN.md 4.3", "deterministic simulation with fault injection (lock-stepped real child process, wrapped parent system calls as scheduling points, simulated clock)"),
     chk("C16", "sim-par",
-        "Seeded search over thread interleavings: the unmodified Tools.hh templates are instantiated against scheduler-controlled std::atomic/std::thread/usleep/now "
+        "Seeded search over thread interleavings: the unmodified Tools.hh templates are instantiated against scheduler-controlled std::atomic/std::thread/std::jthread/std::mutex/std::condition_variable/std::this_thread/usleep/now "
         "shims (macro retargeting in the harness TU), a seeded cooperative scheduler decides who runs at every atomic operation, thread start, join, sleep and callback "
         "entry (strategies: run-to-completion, uniform, PCT, starvation, round-robin; progress timer may fire early), and the recorded callback history is checked for "
-        "exactly-once / at-most-once visits, range, thread numbers, returned value, joined threads, deadlock and termination. The same harness is built a second time "
+        "exactly-once / at-most-once visits, range, thread numbers, returned value, joined threads, deadlock and termination; configurations include ranges at the "
+        "type's maximum, empty ranges given backwards, ranges wider than half of uint8_t, a failing first thread creation, hardware_concurrency() of 0 and a preceding call in the same process. The same harness is built a second time "
         "under ThreadSanitizer with fiber switches that carry no synchronisation, so accesses ordered only by the scheduler are reported as data races. Sampling of "
         "sequentially consistent schedules, not proof.",
         "Trusted: the shims and scheduler (engines/sim_par.cc, vsim/vpar.cc), TSan's fiber API. Sequential consistency only (no weak-memory reorderings). "
@@ -70,15 +74,17 @@ CHECKS = [
         "SCOPED to the entropy clause of C20 (random_int in [lo,hi]; random_data fills exactly n bytes). The real Random.cc runs against a simulated "
         "/dev/urandom whose byte stream (adversarial constants or seeded), read sizes and EIO/EINTR are decided by the seed; every run is executed twice "
         "(stream X, then its complement) on fresh threads so that each output byte is attributable to device data; the device also follows the Linux rule that a pending "
-        "signal cuts reads longer than a page (normal behaviour under which random_data must not throw). gcd/reduce_fraction/log2i/Vector/Matrix4 "
+        "signal cuts reads longer than a page (normal behaviour under which random_data must not throw); getrandom/getentropy/readv/pread reach the same device; once per "
+        "process the first use is also probed with the device on descriptor 0, with a failing first open, from a static constructor before main(), and in a child forked while "
+        "another thread refills. gcd/reduce_fraction/log2i/Vector/Matrix4 "
         "are pure functions, not simulation targets, and are NOT decided by this check.",
         "Trusted: the simulated device in vsim/vfs.cc, std::thread for per-run isolation of the thread_local buffer. Only the random_data/random_int clause "
         "is covered; a change that breaks only the pure clauses of C20 is not detected.",
         "DESIGN.md 4.5", "deterministic simulation with fault injection (simulated entropy device, two-pass complement oracle) - scoped to random_data/random_int"),
     chk("C14", "sim-fs",
         "Seeded search over simulated executions: the real Filesystem.cc runs against a simulated kernel (descriptors incl. number 0, pipe-like "
-        "streams blocking and non-blocking, regular files, a real kernel pipe whose writer is the simulator, directory trees with FIFO-like entries, poll "
-        "readiness, a concurrent deleter) that decides every read/write size, EINTR/EIO/ENOSPC/EAGAIN, EINTR from close, readdir order and full-disk "
+        "streams blocking and non-blocking, regular files incl. ones whose size cannot be asked for or that grow or are replaced meanwhile, glibc stdio over real descriptors, a real "
+        "kernel pipe whose writer is the simulator, directory trees with FIFO-like entries and symbolic links, poll readiness, a concurrent deleter, a second reader thread, errno on entry) that decides every read/write size, EINTR/EIO/ENOSPC/EAGAIN, EINTR from close, readdir order and full-disk "
         "point from one seed; each call is checked against a byte-vector/name-set/map reference model, with a strict oracle in fault-free runs and a "
         "'may throw, never lie' oracle when a fault was actually injected. Sampling, not proof.",
         "Trusted: the simulated kernel in vsim/vfs.cc (POSIX-legal behaviours only), glibc stdio (real), the reference models in engines/sim_fs.cc. "
